@@ -383,6 +383,8 @@ def write_evidence(pm, S, L, vcs, funcs_ok, funcs_oor, bres, npstub):
         "by_kind": kinds,
         "prop_clauses": sum(1 for vc in vcs if vc.role == "prop"),
         "solver_time_s": round(solver_time, 3),
+        "slowest": [{"obligation": vc.name, "s": round(vc.time or 0.0, 1), "backend": vc.backend}
+                    for vc in sorted(vcs, key=lambda v: -(v.time or 0.0))[:6]],
         "undecided": S.undecided,
         "known_findings": [k.get("what") for k, _ in S.known_hits],
         "samples": samples,
@@ -457,6 +459,9 @@ def replay_function_record(pm, rec):
 
 
 def main():
+    if os.environ.get("PYVC_DEBUG_HANG"):
+        import faulthandler
+        faulthandler.dump_traceback_later(int(os.environ["PYVC_DEBUG_HANG"]), exit=True, file=sys.stderr)
     ap = argparse.ArgumentParser()
     ap.add_argument("pid")
     ap.add_argument("--tier", default=os.environ.get("VERIF_TIER", "quick"), choices=["quick", "thorough"])
